@@ -69,23 +69,46 @@ def twin_case(case):
   return out
 
 
-def scene(shape, size, density, z, *, elasticity=0.0, dt=0.002, gravity=-9.81, quat=None):
+def scene(shape, size, density, z, *, elasticity=0.0, dt=0.002, gravity=-9.81, quat=None, offset=(0.0, 0.0), options=None,
+          second=False):
+  """One primitive on a free body above a ground plane.  `offset`: lateral position of the geom inside its body (the centre of
+  mass is then away from the body origin); `options`: brax scene options (custom numerics); `second`: the same body once
+  more, 1.5 m to the side, as a second kinematic tree (observed instead of the first)."""
+  gp = f'pos="{offset[0]!r} {offset[1]!r} 0" ' if any(offset) else ''
   if shape == 'sphere':
-    g = f'<geom name="g" type="sphere" size="{size!r}" density="{density!r}"/>'
+    g = f'<geom name="g" {gp}type="sphere" size="{size!r}" density="{density!r}"/>'
     rest = size
   elif shape == 'box':
-    g = f'<geom name="g" type="box" size="{size!r} {size * 0.8!r} {size * 0.6!r}" density="{density!r}"/>'
+    g = f'<geom name="g" {gp}type="box" size="{size!r} {size * 0.8!r} {size * 0.6!r}" density="{density!r}"/>'
     rest = size * 0.6
   else:  # lying capsule: axis horizontal
-    g = f'<geom name="g" type="capsule" size="{size * 0.5!r} {size!r}" quat="0.7071067811865476 0 0.7071067811865476 0" density="{density!r}"/>'
+    g = f'<geom name="g" {gp}type="capsule" size="{size * 0.5!r} {size!r}" quat="0.7071067811865476 0 0.7071067811865476 0" density="{density!r}"/>'
     rest = size * 0.5
   q = quat or '1 0 0 0'
+  opts = ''.join(f'<numeric name="{k}" data="{v!r}"/>' for k, v in (options or {}).items())
+  body2 = (f'<body name="b2" pos="1.5 0 {rest + z!r}" quat="{q}"><freejoint/>{g.replace('name="g"', 'name="g2"')}</body>'
+           if second else '')
   xml = ('<mujoco><compiler angle="radian"/>'
          f'<option gravity="0 0 {gravity!r}" timestep="{dt!r}"/>'
-         f'<custom><numeric name="elasticity" data="{elasticity!r}"/></custom>'
+         f'<custom><numeric name="elasticity" data="{elasticity!r}"/>{opts}</custom>'
          '<worldbody><geom name="ground" type="plane" size="0 0 1"/>'
-         f'<body name="b" pos="0 0 {rest + z!r}" quat="{q}"><freejoint/>{g}</body></worldbody></mujoco>')
+         f'<body name="b" pos="0 0 {rest + z!r}" quat="{q}"><freejoint/>{g}</body>{body2}</worldbody></mujoco>')
   return xml, rest
+
+
+def variant(r, shape=None):
+  """Scene variations that leave the laws unchanged: centre of mass away from the body origin, a second tree, the spring
+  pipeline's mass / inertia scaling."""
+  v = {}
+  # (off-centre geoms only for spheres, whose single contact acts through the centre of mass: the positional pipeline reports
+  # phantom velocities for RESTING off-centre boxes and capsules - observed, outside the property's quantifier, see DESIGN 12.3)
+  if shape == 'sphere' and r.random() < 0.5:
+    v['offset'] = (r.choice([0.25, -0.15]), r.choice([0.0, 0.1]))
+  if r.random() < 0.35:
+    v['second'] = True
+  if r.random() < 0.35:
+    v['options'] = {'spring_mass_scale': r.choice([0.5, 1.0]), 'spring_inertia_scale': r.choice([0.0, 0.5])}
+  return v
 
 
 def run(ctx):
@@ -186,10 +209,11 @@ def run(ctx):
   for _ in range(3 if q else 40):
     shape = r.choice(['sphere', 'box', 'capsule'])
     size, dens, h = r.uniform(0.05, 0.3), r.uniform(200, 3000), r.uniform(0.0, 0.5)
-    xml, rest = scene(shape, size, dens, h)
+    v = variant(r, shape)
+    xml, rest = scene(shape, size, dens, h, **v)
     for pipe in PIPES:
       drops.append({'what': 'drop', 'xml': xml, 'pipe': pipe, 'q': None, 'qd': None, 'steps': 500 if q else 1500, 'acts': None,
-                    'rest': rest, 'shape': shape})
+                    'rest': rest, 'shape': shape, 'body': 1 if v.get('second') else 0})
   for i in range(3 if q else 40):
     size, e, h = r.uniform(0.05, 0.3), r.uniform(0.0, 0.9), r.uniform(0.2, 1.0)
     if i % 2 == 0:
@@ -198,19 +222,21 @@ def run(ctx):
       k = r.randint(200, 440)
       h = 9.81 * 0.001 ** 2 * k * (k + 1) / 2 + r.choice([2e-6, 1e-5, 1.8e-5])
       e = r.uniform(0.3, 0.9)
-    xml, rest = scene('sphere', size, 1000.0, h, elasticity=e, dt=0.001)
+    v = variant(r, 'sphere') if i % 2 else {}
+    xml, rest = scene('sphere', size, r.choice([1000.0, 300.0, 2500.0]), h, elasticity=e, dt=0.001, **v)
     T = int((math.sqrt(2 * h / 9.81) * 2.2 + 0.1) / 0.001)
     for pipe in ('spring', 'positional'):
       drops.append({'what': 'rebound', 'xml': xml, 'pipe': pipe, 'q': None, 'qd': None, 'steps': T, 'acts': None, 'rest': rest,
-                    'e': e})
+                    'e': e, 'body': 1 if v.get('second') else 0})
   for case, out in par.run('harness.phys', 'rollout', push + drops):
     if 'brax_error' in out:
       ctx.violation(f'{case["pipe"]} raised on a {case["what"]} scene: {out["brax_error"]}', {k: case[k] for k in ('xml', 'pipe')},
                     {'call': case['pipe'], 'predicate': 'raised'})
       continue
-    z = np.array(out['pos'])[:, 0, 2]
-    vz = np.array(out['vel'])[:, 0, 2]
-    sp = np.linalg.norm(np.array(out['vel'])[:, 0, :], axis=-1)
+    bi = case.get('body', 0)
+    z = np.array(out['pos'])[:, bi, 2]
+    vz = np.array(out['vel'])[:, bi, 2]
+    sp = np.linalg.norm(np.array(out['vel'])[:, bi, :], axis=-1)
     rest = case['rest']
     if case['what'] == 'push':
       evs = [{'kind': 'push', 'dz': quant(z[1] - z[0], 1e-6), 'vz': quant(vz[1], 1e-6)}]
